@@ -27,6 +27,10 @@ SDL_UNORDERED = {'commands', 'declarations'}
 def canon(node, *, sdl: bool = False):
     if isinstance(node, qlast.Base):
         name = type(node).__name__
+        if isinstance(node, qlast.Schema):
+            # an SDL document embedded in a statement (START MIGRATION TO { ... }): declaration
+            # order is not part of the program there either (the printer sorts SDL bodies)
+            sdl = True
         # --- spellings of one and the same program -------------------------
         # `X {}` (empty shape) is `X`
         if isinstance(node, qlast.Shape) and not node.elements \
